@@ -10,81 +10,81 @@ import LLTD.Generated.Extracted
 
 namespace LLTD.X
 
-@[simp] theorem sizeofDemux_val : sizeofDemux = 32 := rfl
-@[simp] theorem offEthDst_val : offEthDst = 0 := rfl
-@[simp] theorem offEthSrc_val : offEthSrc = 6 := rfl
-@[simp] theorem offEtherType_val : offEtherType = 12 := rfl
-@[simp] theorem offVersion_val : offVersion = 14 := rfl
-@[simp] theorem offTos_val : offTos = 15 := rfl
-@[simp] theorem offReserved_val : offReserved = 16 := rfl
-@[simp] theorem offOpcode_val : offOpcode = 17 := rfl
-@[simp] theorem offRealDst_val : offRealDst = 18 := rfl
-@[simp] theorem offRealSrc_val : offRealSrc = 24 := rfl
-@[simp] theorem offSeq_val : offSeq = 30 := rfl
-@[simp] theorem sizeofMac_val : sizeofMac = 6 := rfl
-@[simp] theorem offDiscGen_val : offDiscGen = 0 := rfl
-@[simp] theorem offDiscCount_val : offDiscCount = 2 := rfl
-@[simp] theorem offDiscList_val : offDiscList = 4 := rfl
-@[simp] theorem strideStation_val : strideStation = 6 := rfl
-@[simp] theorem sizeofEmitHdr_val : sizeofEmitHdr = 2 := rfl
-@[simp] theorem sizeofEmitee_val : sizeofEmitee = 14 := rfl
-@[simp] theorem offEmiteeType_val : offEmiteeType = 0 := rfl
-@[simp] theorem offEmiteePause_val : offEmiteePause = 1 := rfl
-@[simp] theorem offEmiteeSrc_val : offEmiteeSrc = 2 := rfl
-@[simp] theorem offEmiteeDst_val : offEmiteeDst = 8 := rfl
-@[simp] theorem sizeofHelloHdr_val : sizeofHelloHdr = 14 := rfl
-@[simp] theorem offHelloGen_val : offHelloGen = 0 := rfl
-@[simp] theorem offHelloCur_val : offHelloCur = 2 := rfl
-@[simp] theorem offHelloApp_val : offHelloApp = 8 := rfl
-@[simp] theorem sizeofQryRespHdr_val : sizeofQryRespHdr = 2 := rfl
-@[simp] theorem sizeofQltlv_val : sizeofQltlv = 4 := rfl
-@[simp] theorem offQltlvType_val : offQltlvType = 0 := rfl
-@[simp] theorem offQltlvOffset_val : offQltlvOffset = 2 := rfl
-@[simp] theorem sizeofQltlvResp_val : sizeofQltlvResp = 2 := rfl
-@[simp] theorem sizeofTlvHdr_val : sizeofTlvHdr = 2 := rfl
-@[simp] theorem nodeBytes_val : nodeBytes = 28 := rfl
-@[simp] theorem nodePayloadBytes_val : nodePayloadBytes = 28 := rfl
-@[simp] theorem etherType_val : etherType = 35033 := rfl
-@[simp] theorem tosDiscovery_val : tosDiscovery = 0 := rfl
-@[simp] theorem tosQuick_val : tosQuick = 1 := rfl
-@[simp] theorem tosQos_val : tosQos = 2 := rfl
-@[simp] theorem opDiscover_val : opDiscover = 0 := rfl
-@[simp] theorem opHello_val : opHello = 1 := rfl
-@[simp] theorem opEmit_val : opEmit = 2 := rfl
-@[simp] theorem opTrain_val : opTrain = 3 := rfl
-@[simp] theorem opProbe_val : opProbe = 4 := rfl
-@[simp] theorem opAck_val : opAck = 5 := rfl
-@[simp] theorem opQuery_val : opQuery = 6 := rfl
-@[simp] theorem opQueryResp_val : opQueryResp = 7 := rfl
-@[simp] theorem opReset_val : opReset = 8 := rfl
-@[simp] theorem opCharge_val : opCharge = 9 := rfl
-@[simp] theorem opFlat_val : opFlat = 10 := rfl
-@[simp] theorem opQltlv_val : opQltlv = 11 := rfl
-@[simp] theorem opQltlvResp_val : opQltlvResp = 12 := rfl
-@[simp] theorem tlvHostId_val : tlvHostId = 1 := rfl
-@[simp] theorem tlvCharacteristics_val : tlvCharacteristics = 2 := rfl
-@[simp] theorem tlvIfType_val : tlvIfType = 3 := rfl
-@[simp] theorem tlvWifiMode_val : tlvWifiMode = 4 := rfl
-@[simp] theorem tlvBssid_val : tlvBssid = 5 := rfl
-@[simp] theorem tlvSsid_val : tlvSsid = 6 := rfl
-@[simp] theorem tlvIpv4_val : tlvIpv4 = 7 := rfl
-@[simp] theorem tlvIpv6_val : tlvIpv6 = 8 := rfl
-@[simp] theorem tlvWifiMaxRate_val : tlvWifiMaxRate = 9 := rfl
-@[simp] theorem tlvPerfCounter_val : tlvPerfCounter = 10 := rfl
-@[simp] theorem tlvLinkSpeed_val : tlvLinkSpeed = 12 := rfl
-@[simp] theorem tlvWifiRssi_val : tlvWifiRssi = 13 := rfl
-@[simp] theorem tlvIconImage_val : tlvIconImage = 14 := rfl
-@[simp] theorem tlvHostname_val : tlvHostname = 15 := rfl
-@[simp] theorem tlvFriendlyName_val : tlvFriendlyName = 17 := rfl
-@[simp] theorem tlvHwId_val : tlvHwId = 19 := rfl
-@[simp] theorem tlvQos_val : tlvQos = 20 := rfl
-@[simp] theorem eop_val : eop = 0 := rfl
-@[simp] theorem qosL2Fwd_val : qosL2Fwd = 32768 := rfl
-@[simp] theorem qosVlan_val : qosVlan = 16384 := rfl
-@[simp] theorem qosPrioTag_val : qosPrioTag = 8192 := rfl
-@[simp] theorem littleEndianHost_val : littleEndianHost = 1 := rfl
-@[simp] theorem htons0102_val : htons0102 = 513 := rfl
-@[simp] theorem htonl01020304_val : htonl01020304 = 67305985 := rfl
+@[simp] theorem sizeofDemux_val : sizeofDemux = 32 := by decide
+@[simp] theorem offEthDst_val : offEthDst = 0 := by decide
+@[simp] theorem offEthSrc_val : offEthSrc = 6 := by decide
+@[simp] theorem offEtherType_val : offEtherType = 12 := by decide
+@[simp] theorem offVersion_val : offVersion = 14 := by decide
+@[simp] theorem offTos_val : offTos = 15 := by decide
+@[simp] theorem offReserved_val : offReserved = 16 := by decide
+@[simp] theorem offOpcode_val : offOpcode = 17 := by decide
+@[simp] theorem offRealDst_val : offRealDst = 18 := by decide
+@[simp] theorem offRealSrc_val : offRealSrc = 24 := by decide
+@[simp] theorem offSeq_val : offSeq = 30 := by decide
+@[simp] theorem sizeofMac_val : sizeofMac = 6 := by decide
+@[simp] theorem offDiscGen_val : offDiscGen = 0 := by decide
+@[simp] theorem offDiscCount_val : offDiscCount = 2 := by decide
+@[simp] theorem offDiscList_val : offDiscList = 4 := by decide
+@[simp] theorem strideStation_val : strideStation = 6 := by decide
+@[simp] theorem sizeofEmitHdr_val : sizeofEmitHdr = 2 := by decide
+@[simp] theorem sizeofEmitee_val : sizeofEmitee = 14 := by decide
+@[simp] theorem offEmiteeType_val : offEmiteeType = 0 := by decide
+@[simp] theorem offEmiteePause_val : offEmiteePause = 1 := by decide
+@[simp] theorem offEmiteeSrc_val : offEmiteeSrc = 2 := by decide
+@[simp] theorem offEmiteeDst_val : offEmiteeDst = 8 := by decide
+@[simp] theorem sizeofHelloHdr_val : sizeofHelloHdr = 14 := by decide
+@[simp] theorem offHelloGen_val : offHelloGen = 0 := by decide
+@[simp] theorem offHelloCur_val : offHelloCur = 2 := by decide
+@[simp] theorem offHelloApp_val : offHelloApp = 8 := by decide
+@[simp] theorem sizeofQryRespHdr_val : sizeofQryRespHdr = 2 := by decide
+@[simp] theorem sizeofQltlv_val : sizeofQltlv = 4 := by decide
+@[simp] theorem offQltlvType_val : offQltlvType = 0 := by decide
+@[simp] theorem offQltlvOffset_val : offQltlvOffset = 2 := by decide
+@[simp] theorem sizeofQltlvResp_val : sizeofQltlvResp = 2 := by decide
+@[simp] theorem sizeofTlvHdr_val : sizeofTlvHdr = 2 := by decide
+@[simp] theorem nodeBytes_val : nodeBytes = 28 := by decide
+@[simp] theorem nodePayloadBytes_val : nodePayloadBytes = 28 := by decide
+@[simp] theorem etherType_val : etherType = 35033 := by decide
+@[simp] theorem tosDiscovery_val : tosDiscovery = 0 := by decide
+@[simp] theorem tosQuick_val : tosQuick = 1 := by decide
+@[simp] theorem tosQos_val : tosQos = 2 := by decide
+@[simp] theorem opDiscover_val : opDiscover = 0 := by decide
+@[simp] theorem opHello_val : opHello = 1 := by decide
+@[simp] theorem opEmit_val : opEmit = 2 := by decide
+@[simp] theorem opTrain_val : opTrain = 3 := by decide
+@[simp] theorem opProbe_val : opProbe = 4 := by decide
+@[simp] theorem opAck_val : opAck = 5 := by decide
+@[simp] theorem opQuery_val : opQuery = 6 := by decide
+@[simp] theorem opQueryResp_val : opQueryResp = 7 := by decide
+@[simp] theorem opReset_val : opReset = 8 := by decide
+@[simp] theorem opCharge_val : opCharge = 9 := by decide
+@[simp] theorem opFlat_val : opFlat = 10 := by decide
+@[simp] theorem opQltlv_val : opQltlv = 11 := by decide
+@[simp] theorem opQltlvResp_val : opQltlvResp = 12 := by decide
+@[simp] theorem tlvHostId_val : tlvHostId = 1 := by decide
+@[simp] theorem tlvCharacteristics_val : tlvCharacteristics = 2 := by decide
+@[simp] theorem tlvIfType_val : tlvIfType = 3 := by decide
+@[simp] theorem tlvWifiMode_val : tlvWifiMode = 4 := by decide
+@[simp] theorem tlvBssid_val : tlvBssid = 5 := by decide
+@[simp] theorem tlvSsid_val : tlvSsid = 6 := by decide
+@[simp] theorem tlvIpv4_val : tlvIpv4 = 7 := by decide
+@[simp] theorem tlvIpv6_val : tlvIpv6 = 8 := by decide
+@[simp] theorem tlvWifiMaxRate_val : tlvWifiMaxRate = 9 := by decide
+@[simp] theorem tlvPerfCounter_val : tlvPerfCounter = 10 := by decide
+@[simp] theorem tlvLinkSpeed_val : tlvLinkSpeed = 12 := by decide
+@[simp] theorem tlvWifiRssi_val : tlvWifiRssi = 13 := by decide
+@[simp] theorem tlvIconImage_val : tlvIconImage = 14 := by decide
+@[simp] theorem tlvHostname_val : tlvHostname = 15 := by decide
+@[simp] theorem tlvFriendlyName_val : tlvFriendlyName = 17 := by decide
+@[simp] theorem tlvHwId_val : tlvHwId = 19 := by decide
+@[simp] theorem tlvQos_val : tlvQos = 20 := by decide
+@[simp] theorem eop_val : eop = 0 := by decide
+@[simp] theorem qosL2Fwd_val : qosL2Fwd = 32768 := by decide
+@[simp] theorem qosVlan_val : qosVlan = 16384 := by decide
+@[simp] theorem qosPrioTag_val : qosPrioTag = 8192 := by decide
+@[simp] theorem littleEndianHost_val : littleEndianHost = 1 := by decide
+@[simp] theorem htons0102_val : htons0102 = 513 := by decide
+@[simp] theorem htonl01020304_val : htonl01020304 = 67305985 := by decide
 
 /-- the observation node has no padding: its size is the sum of its fields (so field-wise assignment initialises every byte) -/
 theorem node_no_padding : nodeBytes = nodePayloadBytes := rfl
@@ -93,3 +93,5 @@ theorem node_observed : observedNodeBytes = nodeBytes := rfl
 theorem endian_ok : htons0102 = 513 ∧ htonl01020304 = 67305985 := ⟨rfl, rfl⟩
 
 end LLTD.X
+@[simp] theorem LLTD.X.seesCap_val : LLTD.X.seesCap = some 1024 := rfl
+@[simp] theorem LLTD.X.stateRecBytes_pos : 0 < LLTD.X.stateRecBytes := by decide
